@@ -1,9 +1,9 @@
 SPECIFICATION Spec
 CONSTANTS
-  Letters = {97, 98, 99}
-  MaxRules = 2
+  Letters = {97, 98}
+  MaxRules = 1
   MaxLen = 3
-  Ops = {1, 2, 3, 7, 128}
+  Ops = {0, 1, 2, 3, 5, 6, 7, 11, 128}
   StopAtHit = TRUE
   CheckFlags = TRUE
   Bug = ""
